@@ -115,3 +115,49 @@ theorem C03_roundtrip_flat (dict : DTree) (cs : List ClassDef) (g : Bool) (fuel 
       | _ => rfl
 
 end DV
+
+namespace DV
+open Spec
+
+/-! ### the premises are satisfiable -/
+
+def exDict : DTree := .node .leaf ⟨1, 0, 8, 1, 0⟩ (.node .leaf ⟨2, 0, 7, 0, 1⟩ .leaf)
+def exClass : ClassDef :=
+  { id := 0, name := 0, isMessage := false,
+    defs := [⟨10, 1, 0, false, 0, none, false⟩, ⟨11, 2, 0, false, 0, none, true⟩],
+    additional := 1, intDefaults := [], oddDefaults := [], assigns := false }
+def exFields : List (Nat × FVal) := [(11, .list [.bytes [1, 2, 3], .bytes []]), (10, .scalar (.int 7))]
+def exExtra : List Avp := [{ code := 99, vendor := 5, flags := 0x80, payload := [9] }]
+
+/-- a class with a scalar and a list attribute, both set, one undeclared AVP:
+    every premise of `C03_roundtrip_flat` holds and the conclusion is the
+    expected object -/
+example : ∃ avps, generateFuel rfcTime exDict [exClass] 1 (.obj 0 exFields exExtra) = .ok avps ∧
+    ∃ f1, assignFuel (getValue rfcTime true) exDict [exClass] 1 0 avps = .ok (.obj 0 f1 exExtra) ∧
+      fieldOf f1 ⟨10, 1, 0, false, 0, none, false⟩ = .scalar (.int 7) ∧
+      fieldOf f1 ⟨11, 2, 0, false, 0, none, true⟩ = .list [.bytes [1, 2, 3], .bytes []] := by
+  have hgen : ∃ avps, generateFuel rfcTime exDict [exClass] 1 (.obj 0 exFields exExtra) = .ok avps :=
+    ⟨[{ code := 1, vendor := 0, flags := 0x40, payload := [0, 0, 0, 7] }, { code := 2, vendor := 0, flags := 0, payload := [1, 2, 3] },
+      { code := 2, vendor := 0, flags := 0, payload := [] }, { code := 99, vendor := 5, flags := 0x80, payload := [9] }], by
+      simp [generateFuel, genDefs, genOne, findClass, exClass, exFields, exExtra, bind, Except.bind, pure, Except.pure]
+      rfl⟩
+  obtain ⟨avps, hgen⟩ := hgen
+  refine ⟨avps, hgen, ?_⟩
+  have hval : ∀ d ∈ exClass.defs, FlatOK exDict d (fieldOf exFields d) := by
+    intro d hd
+    simp only [exClass, List.mem_cons, List.mem_nil_iff, or_false] at hd
+    rcases hd with rfl | rfl
+    · exact Or.inr (Or.inl ⟨.int 7, ⟨1, 0, 8, 1, 0⟩, rfl, rfl, rfl, by simp [InDomain, Ty.ofTag]⟩)
+    · exact Or.inr (Or.inr ⟨[.bytes [1, 2, 3], .bytes []], ⟨2, 0, 7, 0, 1⟩, rfl, rfl, rfl, by
+        intro x hx; simp at hx; rcases hx with rfl | rfl <;> simp [InDomain, Ty.ofTag]⟩)
+  have hshape : ∀ d ∈ exClass.defs, (∀ x, fieldOf exFields d = .scalar x → d.isList = false) ∧
+      (∀ xs, fieldOf exFields d = .list xs → d.isList = true) := by
+    intro d hd
+    simp only [exClass, List.mem_cons, List.mem_nil_iff, or_false] at hd
+    rcases hd with rfl | rfl <;> exact ⟨fun _ h => by first | rfl | (simp [fieldOf, exFields] at h), fun _ h => by first | rfl | (simp [fieldOf, exFields] at h)⟩
+  obtain ⟨f1, h1, h2⟩ := C03_roundtrip_flat exDict [exClass] true 0 0 0 exClass exFields exExtra avps rfl (by decide) (by decide)
+    hval hshape (by intro a ha; simp [exExtra] at ha; subst ha; rfl) hgen
+  exact ⟨f1, h1, by simpa [fieldOf, exFields] using h2 ⟨10, 1, 0, false, 0, none, false⟩ (by simp [exClass]),
+    by simpa [fieldOf, exFields] using h2 ⟨11, 2, 0, false, 0, none, true⟩ (by simp [exClass])⟩
+
+end DV
